@@ -48,6 +48,7 @@ type childOutcome struct {
 	stderr   string
 	crashed  bool
 	watchdog bool
+	lockhang string // waiters reported by the worker's watchdog (see worker.go)
 }
 
 func runChild(cfg *supConfig, spec WorkerSpec, gomaxprocs int) childOutcome {
@@ -126,6 +127,9 @@ func runChild(cfg *supConfig, spec WorkerSpec, gomaxprocs int) childOutcome {
 	}
 	if strings.Contains(co.stderr, "WATCHDOG") {
 		co.watchdog = true
+	}
+	if i := strings.Index(co.stderr, "LOCKHANG "); i >= 0 {
+		co.lockhang, _, _ = strings.Cut(co.stderr[i+len("LOCKHANG "):], "\n")
 	}
 	if co.exit == 1 && spec.Prop == "C14" && strings.Contains(co.stderr, "race detected during execution of test") {
 		co.exit = 0 // the testing package fails a test during which the detector fired; the reports are in the result
@@ -444,6 +448,49 @@ func supervisorMain() int {
 						if co.lastIdx > from {
 							from = co.lastIdx
 						}
+						continue
+					}
+					if co.lockhang != "" && co.lastIdx >= 0 {
+						// the run at lastIdx hangs because a goroutine of the code under test waits for a lock
+						// that is held across a simulated network operation. Where the property is about time
+						// (C05: a slow write delays the timing of other probes' replies; C08: a blocked
+						// operation keeps the other goroutine from honouring deadlines and cancellation) that is a
+						// violation; elsewhere the scenario simply cannot be simulated.
+						msg := fmt.Sprintf("run %d cannot make progress: goroutine(s) of the code under test wait for a lock while another goroutine of the run is inside a Source/Sink operation (which may take arbitrarily long): %s", co.lastIdx, co.lockhang)
+						if cfg.Prop == "C05" || cfg.Prop == "C08" {
+							sc := GenScenario(p, cfg.Tier, cfg.Seed, co.lastIdx)
+							rf := ReplayFile{Property: p.ID(), Rule: cfg.Prop + ".lock-held-across-io", Detail: msg, Facts: map[string]string{"waiters": co.lockhang}, Scenario: sc}
+							os.MkdirAll(cfg.ReplayDir, 0o755)
+							path := fmt.Sprintf("%s/%s-%d-%d-lockhang.json", cfg.ReplayDir, p.ID(), cfg.Seed, co.lastIdx)
+							b, _ := json.MarshalIndent(rf, "", " ")
+							os.WriteFile(path, b, 0o644)
+							agg.mu.Lock()
+							agg.Violations = append(agg.Violations, FoundViolation{Violation: props.Violation{Rule: rf.Rule, Detail: msg, Facts: rf.Facts}, Index: co.lastIdx, Replay: path})
+							agg.Runs++
+							agg.mu.Unlock()
+						} else {
+							agg.mu.Lock()
+							agg.Stats["lockhang.skipped-run"]++
+							if agg.Stats["lockhang.skipped-run"] <= 3 {
+								agg.Trouble = append(agg.Trouble, msg)
+							}
+							agg.mu.Unlock()
+							mu.Lock()
+							trouble = true
+							mu.Unlock()
+						}
+						agg.mu.Lock()
+						agg.Stats["lockhang.runs"]++
+						many := agg.Stats["lockhang.runs"] > 6
+						agg.mu.Unlock()
+						if many {
+							// every further hang costs seconds of real time and says nothing new
+							agg.mu.Lock()
+							agg.Stats["lockhang.chunks-abandoned"]++
+							agg.mu.Unlock()
+							break
+						}
+						from = co.lastIdx + 1
 						continue
 					}
 					if co.watchdog || !co.crashed || co.lastIdx < 0 {
